@@ -65,6 +65,7 @@ class Profile:
         phi_liveout=False,
         distinct_cjmp_targets=False,
         obs_type=None,
+        indirect_boost=0,
         forbidden=(),
     ):
         self.__dict__.update(locals())
@@ -564,6 +565,8 @@ class _FuncGen:
         draw, prof = self.draw, self.prof
         if prof.late_allocs and self.chance(5):
             return self.gen_alloca(pool, out, define)
+        if prof.indirect_boost and self.mod.functions and self.chance(prof.indirect_boost):
+            return self.gen_fptr_idiom(pool, out, define)
         r = draw(st.integers(0, 109))
         if r >= 105:
             return self.gen_mem_idiom(pool, out, define)
@@ -771,15 +774,33 @@ class _FuncGen:
         pool.setdefault("ptr", []).append(q)
         return q
 
-    def gen_call(self, pool, out, define):
+    def gen_fptr_idiom(self, pool, out, define):
+        """store &f,[p]; fp = load ptr [p]; call fp(...)   (Profile.indirect_boost: percentage of instructions)"""
+        prof = self.prof
+        f = self.pick(self.mod.functions)
+        p = self.pointer_for(pool, out, prof.ptr_bits // 8, True, align=prof.ptr_bits // 8)
+        if p is None:
+            return
+        out.append(["store", f["name"], p, False])
+        n = self.fresh("fp")
+        out.append(["load", n, "ptr", p, False])
+        self.prov[n] = ("func", f["name"])
+        pool.setdefault("fptr", []).append(n)
+        self.gen_call(pool, out, define, force=(f, n))
+
+    def gen_call(self, pool, out, define, force=None):
         prof = self.prof
         targets = [("fn", f) for f in self.mod.functions] + ([("ext", e) for e in self.mod.externals] if prof.externals else [])
         fptrs = [n for n in pool.get("fptr", [])]
         if not targets:
             return
-        kind, f = self.pick(targets)
-        callee = f["name"]
-        if kind == "fn" and fptrs and self.chance(50):
+        if force is not None:
+            kind, f = "fn", force[0]
+            callee = force[1]
+        else:
+            kind, f = self.pick(targets)
+            callee = f["name"]
+        if force is None and kind == "fn" and fptrs and self.chance(50):
             cands = [n for n in fptrs if self.prov[n][1] == f["name"]]
             if cands:
                 callee = self.pick(cands)
